@@ -251,6 +251,14 @@ impl Report {
             );
         }
         let nviol = unattributed.len();
+        if std::env::var_os("VCHECK_DUMP").is_some() {
+            let mut txt = String::new();
+            for f in &unattributed {
+                txt.push_str(&json!({"oracle": f.oracle, "tags": f.tags, "case": f.case, "expected": f.expected, "observed": f.observed}).to_string());
+                txt.push('\n');
+            }
+            let _ = std::fs::write(replay_dir.join(format!("{}-{}-all.jsonl", self.property, self.tier.name())), txt);
+        }
         if !self.replay_mode {
             self.write_evidence(nviol, &by_finding);
         }
